@@ -18,7 +18,7 @@ func checkC06(c *Ctx) {
 	// ---- O1 ---------------------------------------------------------------------------------
 	e := c.newQualEngine()
 	sinks := c.reporterSinks()
-	c.floor("O1 sanitize-before-sink", len(sinks), 17)
+	c.floor("O1 sanitize-before-sink", len(sinks), 9)
 	ord := map[string]int{}
 	for _, s := range sinks {
 		in := s.call.(ssa.Instruction)
@@ -216,12 +216,16 @@ func (c *Ctx) checkSanitizeBuffer(rule string) {
 	}
 	key := c.fnKey(cl)
 	var puts []*ssa.Call
+	nDeferred := 0
 	instrsOf(cl, func(in ssa.Instruction) {
 		if call, ok := in.(*ssa.Call); ok && staticCallee(call) == put {
 			puts = append(puts, call)
 		}
+		if d, ok := in.(*ssa.Defer); ok && staticCallee(d) == put {
+			nDeferred++
+		}
 	})
-	ok := len(puts) >= 1
+	ok := len(puts)+nDeferred >= 1
 	why := "the scratch buffer is never returned to the pool"
 	isBufUse := func(in ssa.Instruction) bool {
 		call, isCall := in.(*ssa.Call)
@@ -250,6 +254,19 @@ func (c *Ctx) checkSanitizeBuffer(rule string) {
 			why = "the result is not taken (String()) before the buffer goes back to the pool"
 		}
 	}
+	// the buffer goes back to the pool at most once per call (a buffer pooled twice is handed to two
+	// goroutines at the same time), deferred puts included
+	cnt := c.newPathCounter(func(i ssa.Instruction) bool {
+		call := asCall(i)
+		return call != nil && staticCallee(call) == put
+	}, 1).fn(cl, 1)
+	c.paths++
+	if cnt.max > 1 {
+		ok = false
+		why = fmt.Sprintf("the scratch buffer can be returned to the pool %d times in one call: two later callers (possibly on different goroutines) receive the same buffer and corrupt each other's output", cnt.max)
+	}
+	// a deferred put runs after the explicit uses but also after `return buf.String()` has been
+	// evaluated, which is fine; a put followed by a use is not (checked above)
 	// the value returned on the buffered path is that String() result
 	c.check(ok, rule, key, cl.Pos(), "get -> writes -> String() -> put; no use after put", why)
 	// put resets before pooling
